@@ -3192,6 +3192,10 @@ func (s *ImmuStore) readTx(txID uint64, allowPrecommitted bool, skipIntegrityChe
 	if errors.Is(err, io.EOF) {
 		return fmt.Errorf("%w: unexpected EOF while reading tx %d", ErrCorruptedTxData, txID)
 	}
+	if err == nil && tx.header.ID != txID {
+		// the record is self-consistent but it is not the requested transaction
+		return fmt.Errorf("%w: tx %d found where tx %d was expected", ErrCorruptedTxData, tx.header.ID, txID)
+	}
 
 	return err
 }
@@ -3207,6 +3211,9 @@ func (s *ImmuStore) ReadTxHeader(txID uint64, allowPrecommitted bool, skipIntegr
 	header, err := tdr.readHeader(s.maxTxEntries)
 	if err != nil {
 		return nil, err
+	}
+	if header.ID != txID {
+		return nil, fmt.Errorf("%w: tx %d found where tx %d was expected", ErrCorruptedTxData, header.ID, txID)
 	}
 
 	// The TxEntry's key buffer is scratch — the returned *TxHeader carries
@@ -3249,6 +3256,9 @@ func (s *ImmuStore) ReadTxEntry(txID uint64, key []byte, skipIntegrityCheck bool
 	header, err := tdr.readHeader(s.maxTxEntries)
 	if err != nil {
 		return nil, nil, err
+	}
+	if header.ID != txID {
+		return nil, nil, fmt.Errorf("%w: tx %d found where tx %d was expected", ErrCorruptedTxData, header.ID, txID)
 	}
 
 	e := &TxEntry{k: make([]byte, s.maxKeyLen)}
